@@ -29,7 +29,9 @@ VARIABLES cid,        \* index into Cases, fixed in Init
           insp,       \* inspector state: number of tokens fed by on_token, restored by on_rewind
           memo,       \* memo table: function from <<pos, path>> to [inprog, alt]
           kf,         \* deviation choices made so far: function site -> "on"/"off"
-          st,         \* [done, panicked, steps, leaked]: leaked = tracked values lost without being dropped (C19)
+          st,         \* [done, panicked, steps, leaked, run, past]: leaked = tracked values lost without being
+                      \* dropped (C19); run / past = index of the current parse of a history and the results of
+                      \* the finished ones (C13)
           obs,        \* history: probe events <<id, cur, insp, ctx>>
           result      \* the ParseResult, set by Finish
 
@@ -37,7 +39,10 @@ vars == <<cid, stack, ret, cur, alt, sec, insp, memo, kf, st, obs, result>>
 
 Case == Cases[cid]
 G == Case.g
-Toks == Case.inp
+(* Histories (C13): a case may carry further inputs (`more`, with their offsets `moffs`) that are  *)
+(* parsed one after the other through the SAME parser value; st.run counts the finished parses.  *)
+Toks == IF st.run = 0 THEN Case.inp ELSE Case.more[st.run]
+COffs == IF st.run = 0 THEN Case.offs ELSE Case.moffs[st.run]
 NTok == Len(Toks)
 Ety == Case.ety
 TopMode == Case.mode
@@ -77,7 +82,7 @@ RECURSIVE IdxIn(_, _)
 IdxIn(lo, c) == IF c <= lo THEN 0 ELSE 1 + IdxIn(Nxt(lo), c)      \* number of tokens of this level in [lo, c)
 SpanOf(i, j) ==
   IF Case.kind = "tree" THEN <<IdxIn(RngLo, i), IdxIn(RngLo, j)>>     \* plain slices: indices into the inner slice
-  ELSE IF ~Gapped THEN <<Case.offs[i + 1], Case.offs[j + 1]>>
+  ELSE IF ~Gapped THEN <<COffs[i + 1], COffs[j + 1]>>
   ELSE IF i = RngHi THEN (IF TopLevel THEN <<3 * NTok, 3 * NTok>> ELSE <<GStart(i), GStart(i)>>)
   ELSE IF j > i THEN <<GStart(i), 3 * j - 1>>
   ELSE IF MappedDefect THEN <<GStart(i), IF j > 0 THEN 3 * j - 1 ELSE 3 * NTok>>
@@ -1104,6 +1109,23 @@ Finish ==
 
 NoResult == [ok |-> FALSE, out |-> VU, errs |-> <<>>, panic |-> FALSE, insp |-> 0, leaked |-> 0]
 
+(* C13: the next parse of a history.  Parser::parse creates a fresh owner of all per-parse state  *)
+(* (cursor, pending and secondary errors, memo table, inspector state given by the caller) and   *)
+(* runs the same, immutable, parser value on it: nothing of the finished parse is visible.        *)
+MoreRuns == IF "more" \in DOMAIN Case THEN Len(Case.more) ELSE 0
+ANextParse ==
+  /\ st.done /\ ~st.panicked /\ st.run < MoreRuns
+  /\ stack' = << Frame(<<"theni", G, <<"end">>>>, TopMode, VU, <<>>, <<>>, "go", 0, 0, 0, 0,
+                       <<0, Len(Case.more[st.run + 1])>>) >>
+  /\ ret' = NoRet
+  /\ cur' = 0 /\ alt' = NoAlt /\ sec' = <<>> /\ insp' = 0
+  /\ memo' = <<>>
+  /\ st' = [done |-> FALSE, panicked |-> FALSE, steps |-> 0, leaked |-> 0, run |-> st.run + 1, past |-> Append(st.past, result)]
+  /\ obs' = <<>>
+  /\ result' = NoResult
+  /\ UNCHANGED <<cid, kf>>
+
+
 Init ==
   /\ cid \in 1..Len(Cases)
   /\ stack = << Frame(<<"theni", Cases[cid].g, <<"end">>>>, Cases[cid].mode, VU, <<>>, <<>>, "go", 0, 0, 0, 0,
@@ -1113,7 +1135,7 @@ Init ==
   /\ memo = <<>>
   /\ kf \in (IF "mapped_span" \in KFSites /\ Cases[cid].kind \in GappedKinds
              THEN {<<>>, "mapped_span" :> "on"} ELSE {<<>>})
-  /\ st = [done |-> FALSE, panicked |-> FALSE, steps |-> 0, leaked |-> 0]
+  /\ st = [done |-> FALSE, panicked |-> FALSE, steps |-> 0, leaked |-> 0, run |-> 0, past |-> <<>>]
   /\ obs = <<>>
   /\ result = NoResult
 
@@ -1134,5 +1156,5 @@ CoreNext ==
   \/ ANestedStart \/ ANestedBRet \/ ANestedARet
   \/ AWithCtxStart \/ AThenCtxStart \/ AThenCtxARet \/ AThenCtxBRet \/ AWithStateStart \/ AWithStateRet
   \/ APrattStart \/ APrattPrefixScan \/ APrattPrefixRet \/ APrattAtomRet \/ APrattPostfixScan \/ APrattInfixScan \/ APrattInfixRet
-  \/ Finish
+  \/ Finish \/ ANextParse
 =============================================================================
